@@ -288,6 +288,9 @@ class H2Server:
             req.via = self.oc.via
             req.call = CALL.get()
             req.t_head = o.net.now()
+            req.tls = self.oc.tls_done
+            req.tls_info = self.tr.layers[-1] if (self.oc.tls_done and self.tr.layers) else None
+            req.alpn = self.oc.alpn
             self.n += 1
             hdrs = [(bytes(k), bytes(v)) for k, v in ev.headers]
             req.h2_headers = hdrs
